@@ -326,6 +326,34 @@ func runC03(c *an.Ctx) {
 				c.Check(okG && fs.Has(an.EQ(t.Of(headC)+"#1", "nil")), "C03.c", "append-after-adjacency-loop", "headers at or above the head reach the underlying store only after the adjacency loop accepted all of them", ssAppend, call, "", pr.AtInstr(call))
 			})
 			c.Min("C03.c", "guarded underlying appends", n, 1)
+			// the cached head the adjacency test starts from follows every accepted batch: a cache that
+			// is not moved makes the next adjacent header look non-adjacent (and lets a stale one pass)
+			isHeadStore := func(in ssa.Instruction) bool {
+				call, ok := in.(*ssa.Call)
+				return ok && strings.HasSuffix(an.StaticFullName(&call.Call), "atomic.Pointer[T]).Store") && len(call.Call.Args) > 0 && strings.HasSuffix(an.Stable(t.Of(call.Call.Args[0])), "p0.head")
+			}
+			nRet := 0
+			for _, r := range ff.Returns() {
+				tail := false
+				if ec, isCall := t.Deref(errResult(r)).(*ssa.Call); isCall && ec.Call.IsInvoke() && ec.Call.Method.Name() == "Append" {
+					tail = !ff.AtInstr(r).Has(an.NE(t.Of(ec), "nil")) // `return s.Store.Append(…)`, not the failure exit
+				}
+				if t.ErrShape(errResult(r)) == "nil" || tail {
+					fs := ff.AtInstr(r)
+					if fs.Has(an.EQ("len(p2)", "0")) {
+						continue
+					}
+					pr := ff.Prune(atOrAbove)
+					if !pr.Reachable(r.Block()) {
+						continue
+					}
+					nRet++
+					okS := (an.Flow{Fn: ssAppend, Skip: pr.Removed}).MustPrecede(isHeadStore, r)
+					c.Check(okS, "C03.c", "head-cache-follows-append", "a batch at or above the head that is handed to the store also moves the cached head the next adjacency test starts from", ssAppend, r, "", nil)
+				}
+			}
+			c.Min("C03.c", "accepting exits of syncStore.Append at or above the head", nRet, 1)
+			checkArith(c, "C03.c", []*ssa.Function{ssAppend}, map[string]bool{"index": true, "slice": true, "usub": true}, nil, nil)
 		}
 	}
 
